@@ -2,10 +2,10 @@ PBT = "property-based testing (proptest, generated inputs vs. explicit oracle)"
 def claim(i, tech, text, note):
     CLAIMED[i] = (tech, text, note, f"DESIGN.md section 5, {i}")
 
-claim("C01", PBT + ": independent special-token scanner + UTF-8 bytes, round trip",
+claim("C01", PBT + " + coverage-guided fuzzing (libFuzzer target with the same oracle, thorough tier): independent special-token scanner + UTF-8 bytes, round trip",
   "Generated Unicode texts (incl. the case's own special-token spellings and look-alikes) x byte/char tokenizer configs x special configs; ids are compared with an independent leftmost scanner and the decode round trip is checked. Exploration: no counterexample in N generated cases.",
   "Special-token sets are prefix-free with tokens >= 2 bytes (otherwise the parse is ambiguous by construction of the regex); cluster boundaries from unicode-segmentation; texts <= ~120 bytes.")
-claim("C02", PBT + ": decode(encode) round trip + table-derived byte strings",
+claim("C02", PBT + " + coverage-guided fuzzing (libFuzzer target with the same oracle, thorough tier): decode(encode) round trip + table-derived byte strings",
   "Generated well-formed merge tables x texts with whitespace structure x max_vocab_size x special configs; losslessness modulo trailing whitespace, id range and UTF-8 validity are checked against the table itself.",
   "Tables <= 48 merges over small alphabets; max_vocab_size semantics as documented in the constructor.")
 claim("C03", PBT + " + coverage-guided fuzzing (libFuzzer target with the same oracle, thorough tier): differential against a naive reference BPE",
@@ -20,10 +20,10 @@ claim("C07", PBT + ": exact sequence models (sequential, round-robin), multiset/
 claim("C12", PBT + " + coverage-guided fuzzing (libFuzzer target with the same oracle, thorough tier): differential against a reference DP + script applier + metamorphic laws",
   "Generated pairs over dense alphabets x all flag combinations; distance, normalised distance, prefix distance, distances() and the operations() script are compared with an independent suffix-recursive reference (validated by BFS at start-up).",
   "Trusts unicode-segmentation for cluster boundaries; strings <= 40 characters. KF5 (normalised distance > 1 under spaces_insert_delete_only) is a recorded known finding; its class is excluded from the upper range assertion only.")
-claim("C13", PBT + ": range/totality, calibration laws via reference LCS, reference whitespace-operation sets, aggregation laws, defining formulas",
+claim("C13", PBT + " + coverage-guided fuzzing (libFuzzer target with the same oracle, thorough tier): range/totality, calibration laws via reference LCS, reference whitespace-operation sets, aggregation laws, defining formulas",
   "Four generated families (word-level corruption triples, whitespace-variant triples, arbitrary Unicode triples, vectors/lists for the simple metrics) x beta x averaging x mode x graphemes.",
   "The metrics' own normalisation is taken from the crate's public clean()/normalize(); float tolerance 1e-9; grapheme-mode calibration only on segmentation-stable texts (KF3).")
-claim("C15", PBT + ": existential single-edit explanation oracle over edit chains",
+claim("C15", PBT + " + coverage-guided fuzzing (libFuzzer target with the same oracle, thorough tier): existential single-edit explanation oracle over edit chains",
   "Generated words x edit-kind subsets x real context tables (or mock providers) x predicates x exclusion sets x seeds x chains; every step must be explained by exactly one enabled edit that reproduces the new word and the new exclusion set; panics (overflow checks on) are failures.",
   "Grapheme mode restricted to closed-pool clusters (KF4); overflow-checks = true as in cargo test.")
 claim("C19", PBT + ": replay with full recount (validity predicate, ties explored) + tokenizer consistency",
@@ -41,13 +41,13 @@ claim("C10", PBT + " + coverage-guided fuzzing (libFuzzer target with the same o
 claim("C11", PBT + " + coverage-guided fuzzing (libFuzzer target with the same oracle, thorough tier): std split_whitespace as reference model, independent boundary scan",
   "Generated Unicode strings (every White_Space code point, CRLF, zero-width non-spaces, hazards); clean/word_boundaries/remove/full compared with independent models; idempotence.",
   "Grapheme mode: segmentation-stable strings (KF1 recorded outside); unstable ones run for totality.")
-claim("C14", PBT + ": metamorphic relations through the real preprocessing + task functions",
+claim("C14", PBT + " + coverage-guided fuzzing (libFuzzer target with the same oracle, thorough tier): metamorphic relations through the real preprocessing + task functions",
   "Generated clean texts x probabilities x seeds x modes, run through preprocessing(WhitespaceCorruption) and train_task(WhitespaceCorrection): only whitespace changes, output clean, repair/operations recover the original, label count, determinism on fresh instances, p=0 laws, (0,0) rejected.",
   "Grapheme mode on closed-pool texts (KF2); needs the TrainData read accessors of hook H3.")
 claim("C16", PBT + " + coverage-guided fuzzing (libFuzzer target with the same oracle, thorough tier): tiling / bounds / slice-equality predicates with an independent prefix-sum table",
   "Generated strings with 1-4 byte characters and wide clusters x max x context (incl. invalid) x char/byte/full x graphemes; Err exactly where the statement allows it, otherwise exact tiling and size limits.",
   "Sizes below 2^20; in byte mode a band of character widths where both outcomes are legitimate is accepted.")
-claim("C17", PBT + ": exact expected group structure, COO-matrix invariants, padding invariants",
+claim("C17", PBT + " + coverage-guided fuzzing (libFuzzer target with the same oracle, thorough tier): exact expected group structure, COO-matrix invariants, padding invariants",
   "Generated batches of texts x byte tokenizer configs x tasks; groups compared with the independent scanner's structure, sparse matrix and padded tensors checked entry by entry.",
   "Needs hooks H1 (tensor views) and H3; f32 tolerance 1e-5.")
 claim("C18", PBT + " + coverage-guided fuzzing (libFuzzer target with the same oracle, thorough tier): textbook LCS as reference + validity predicate on the matching",
